@@ -24,10 +24,10 @@ class Crash(BaseException):
     """Raised by the environment at the crash point (BaseException: the code under test must not swallow it)."""
 
 
-def make_world(target, prefix_len=2, hash_type='sha256'):
+def make_world(target, prefix_len=2, hash_type='sha256', parent=None, name='c'):
     if MODE == 'model':
-        return ModelWorld(target, prefix_len, hash_type)
-    return RealWorld(target, prefix_len, hash_type)
+        return ModelWorld(target, prefix_len, hash_type, parent, name)
+    return RealWorld(target, prefix_len, hash_type, parent, name)
 
 
 _ORIG = {}
@@ -54,83 +54,87 @@ def fresh_modules():
 class ModelImage:
     """A photographed (kernel-visible or durable) state of the model container."""
 
-    def __init__(self, files, rows, prefix_len):
+    def __init__(self, files, rows, prefix_len, root=None):
+        from . import menv
+
         self.files, self._rows, self.prefix_len = files, rows, prefix_len
+        self.root = root or menv.VROOT
 
     def rows(self):
         return self._rows
 
     def pack_data(self, pack_id):
-        from . import menv
-
-        return self.files.get(menv.VROOT + '/packs/' + str(pack_id))
+        return self.files.get(self.root + '/packs/' + str(pack_id))
 
     def pack_ids(self):
-        from . import menv
-
-        pre = menv.VROOT + '/packs/'
+        pre = self.root + '/packs/'
         return sorted(int(p[len(pre) :]) for p in self.files if p.startswith(pre) and not p.endswith('.lock'))
 
     def loose_path(self, key):
-        from . import menv
-
         if self.prefix_len:
-            return menv.VROOT + '/loose/' + key[: self.prefix_len] + '/' + key[self.prefix_len :]
-        return menv.VROOT + '/loose/' + key
+            return self.root + '/loose/' + key[: self.prefix_len] + '/' + key[self.prefix_len :]
+        return self.root + '/loose/' + key
 
     def loose_data(self, key):
         return self.files.get(self.loose_path(key))
 
     def loose_keys(self):
-        from . import menv
-
-        pre = menv.VROOT + '/loose/'
+        pre = self.root + '/loose/'
         return sorted(p[len(pre) :].replace('/', '') for p in self.files if p.startswith(pre))
 
 
 class ModelWorld:
     kind = 'model'
 
-    def __init__(self, target, prefix_len, hash_type):
+    def __init__(self, target, prefix_len, hash_type, parent=None, name='c'):
         from . import menv
 
         self.menv = menv
-        self.C, self.U = fresh_modules()
         self.prefix_len = prefix_len
         self.hash_type = hash_type
         self.klen = 64 if hash_type == 'sha256' else 40
-        fs = self.fs = menv.ModelFS()
-        db = self.db = menv.ModelDB(fs)
-        menv.install(fs, db, self.C, self.U)
-        self.C.Path = menv.make_path_class(fs)
+        self.root = '/vroot/' + name
+        if parent is None:
+            self.C, self.U = fresh_modules()
+            fs = self.fs = menv.ModelFS()
+            self.dbs = {}
+            menv.install(fs, self.dbs, self.C, self.U)
+            self.C.Path = menv.make_path_class(fs)
+        else:  # a second container in the same model environment (import source)
+            self.C, self.U, fs, self.dbs = parent.C, parent.U, parent.fs, parent.dbs
+            self.fs = fs
+        fs.dirs.add(self.root)
         for d in ('loose', 'packs', 'duplicates', 'sandbox'):
-            fs.dirs.add(menv.VROOT + '/' + d)
-        fs.files[menv.VROOT + '/packs.idx'] = menv.Node()
+            fs.dirs.add(self.root + '/' + d)
+        db = self.db = menv.ModelDB(fs)
+        self.dbs[self.root + '/packs.idx'] = db
+        fs.files[self.root + '/packs.idx'] = menv.Node()
+        fs.files[self.root + '/config.json'] = menv.Node(text='{}')
         self.config = {
             'container_version': 1,
             'loose_prefix_len': prefix_len,
             'pack_size_target': target,
             'hash_type': hash_type,
-            'container_id': 'x',
+            'container_id': 'x' + name,
             'compression_algorithm': 'zlib+1',
         }
         self.c = self.new_handle()
         self.box = []
 
     def new_handle(self):
-        c = self.C.Container(self.menv.VROOT)
+        c = self.C.Container(self.root)
         c._config = self.config
         return c
 
     # ---- contents
     def key(self, i, size):
+        reg = self.menv.ModelHasher.registry
+        for ht, klen in (('sha256', 64), ('sha1', 40)):  # the same content has a key under each algorithm
+            reg[(ht, 'empty')] = 'e' * klen
+            reg[(ht, i)] = ('a' + str(i) * 63)[:klen]
         if size == 0:
-            k = 'e' * self.klen
-            self.menv.ModelHasher.registry['empty'] = k
-            return k
-        k = ('a' + str(i) * 63)[: self.klen]
-        self.menv.ModelHasher.registry[i] = k
-        return k
+            return 'e' * self.klen
+        return ('a' + str(i) * 63)[: self.klen]
 
     def content(self, i, size):
         self.key(i, size)
@@ -141,6 +145,25 @@ class ModelWorld:
 
     def stream(self, i, size):
         return self.menv.MemStream(self.content(i, size))
+
+    # ---- codec parameters (model zlib, vf/menv.py)
+    def set_zlen(self, i, size, z):
+        """the compressed stream of object i is z bytes long (symbolic, independent of size)"""
+        self.key(i, size)
+        self.fs.zl.zlen[('obj', i, size)] = z
+
+    def set_codec(self, early=0, sample_len=20):
+        self.fs.zl.early, self.fs.zl.sample_len = early, sample_len
+
+    def zdata(self, i, size):
+        if size == 0:
+            return self.menv.Seg([(('z', 'empty'), 0, self.menv.ZEMPTY)])
+        src = ('obj', i, size)
+        return self.menv.Seg([(('z', src), 0, self.fs.zl.zlen[src])])
+
+    def inflates_to(self, data, i, size):
+        """library-free: the stored bytes are exactly the compressed stream of object i"""
+        return data == self.zdata(i, size)
 
     # ---- building pre-states directly
     def put_loose(self, i, size):
@@ -162,11 +185,11 @@ class ModelWorld:
                 r[field] = r[field] + delta
 
     def truncate_pack(self, pack_id, t):
-        n = self.fs.files[self.menv.VROOT + '/packs/' + str(pack_id)]
+        n = self.fs.files[self.root + '/packs/' + str(pack_id)]
         n.data = n.data[:t]
 
     def damage_pack(self, pack_id, a, n):
-        node = self.fs.files[self.menv.VROOT + '/packs/' + str(pack_id)]
+        node = self.fs.files[self.root + '/packs/' + str(pack_id)]
         node.data = node.data[:a] + self.junk(8, n) + node.data[a + n :]
 
     def set_pack(self, pack_id, parts):
@@ -176,31 +199,33 @@ class ModelWorld:
             if p[0] == 'junk':
                 data = data + self.junk(p[1], p[2])
             else:
-                _, i, size = p
+                kind, i, size = p
+                stored = self.zdata(i, size) if kind == 'zobj' else self.content(i, size)
                 self.db.versions[-1].append(
                     dict(
                         id=self.db.next_id,
                         hashkey=self.key(i, size),
                         pack_id=pack_id,
                         offset=len(data),
-                        length=size,
+                        length=len(stored),
                         size=size,
-                        compressed=False,
+                        compressed=(kind == 'zobj'),
                     )
                 )
                 self.db.next_id += 1
-                data = data + self.content(i, size)
+                data = data + stored
         n = self.menv.Node()
         n.data = data
         n.synced = len(data)
-        self.fs.files[self.menv.VROOT + '/packs/' + str(pack_id)] = n
+        self.fs.files[self.root + '/packs/' + str(pack_id)] = n
 
     # ---- observation of the live state (library-free)
     def image(self, durable=False):
         files = {}
         for p, n in self.fs.files.items():
-            files[p] = n.data[: n.synced] if durable else n.data
-        return ModelImage(files, [dict(r) for r in self.db.versions[-1]], self.prefix_len)
+            if p.startswith(self.root + '/'):
+                files[p] = n.data[: n.synced] if durable else n.data
+        return ModelImage(files, [dict(r) for r in self.db.versions[-1]], self.prefix_len, self.root)
 
     def open_fds(self, count_index=False):
         return len(self.fs.open_fds)
@@ -235,7 +260,7 @@ class ModelWorld:
                 rows = what[1]
                 for r in rows:
                     if r['hashkey'] not in seen:
-                        node = fs.files.get(menv.VROOT + '/packs/' + str(r['pack_id']))
+                        node = fs.files.get(self.root + '/packs/' + str(r['pack_id']))
                         if node is None or node.synced < r['offset'] + r['length']:
                             self.monitor_ok = False
             if what[0] == 'unlink' and '/loose/' in what[1]:
@@ -243,7 +268,7 @@ class ModelWorld:
                 ok = False
                 for r in db.versions[-1]:
                     if r['hashkey'] == key:
-                        node = fs.files.get(menv.VROOT + '/packs/' + str(r['pack_id']))
+                        node = fs.files.get(self.root + '/packs/' + str(r['pack_id']))
                         if node is not None and node.synced >= r['offset'] + r['length']:
                             ok = True
                 if not ok:
@@ -269,8 +294,16 @@ class ModelWorld:
 
 
 # ====================================================================== real world
+_COMPRESSIBLE = set()  # object ids whose real content is highly compressible (set through RealWorld.set_zlen)
+
+
 def real_bytes(i, size):
-    return random.Random(1000 + i).randbytes(size) if size else b''
+    if not size:
+        return b''
+    if i in _COMPRESSIBLE:
+        unit = b'compressible-%03d-' % i
+        return (unit * (size // len(unit) + 1))[:size]
+    return random.Random(1000 + i).randbytes(size)
 
 
 class RealImage:
@@ -387,11 +420,14 @@ class _TickOS:
 class RealWorld(RealImage):
     kind = 'real'
 
-    def __init__(self, target, prefix_len, hash_type):
-        self.C, self.U = fresh_modules()
+    def __init__(self, target, prefix_len, hash_type, parent=None, name='c'):
+        if parent is None:
+            self.C, self.U = fresh_modules()
+        else:
+            self.C, self.U = parent.C, parent.U
         base = os.environ.get('VF_SCRATCH') or tempfile.gettempdir()
         self.base = tempfile.mkdtemp(prefix='vf-replay-', dir=base)
-        folder = os.path.join(self.base, 'c')
+        folder = os.path.join(self.base, name)
         RealImage.__init__(self, folder, prefix_len)
         self.hash_type = hash_type
         c = self.C.Container(folder)
@@ -422,6 +458,30 @@ class RealWorld(RealImage):
 
     def stream(self, i, size):
         return io.BytesIO(real_bytes(i, size))
+
+    # ---- codec parameters: the real compressed length is whatever zlib gives; the model's choice only selects
+    # compressible (z well below the size) or incompressible real content
+    def set_zlen(self, i, size, z):
+        if z * 10 < size * 9:
+            _COMPRESSIBLE.add(i)
+        else:
+            _COMPRESSIBLE.discard(i)
+
+    def set_codec(self, early=0, sample_len=20):
+        pass
+
+    def zdata(self, i, size):
+        import zlib
+
+        return zlib.compress(real_bytes(i, size), 1)
+
+    def inflates_to(self, data, i, size):
+        import zlib
+
+        try:
+            return zlib.decompress(data) == real_bytes(i, size)
+        except zlib.error:
+            return False
 
     def put_loose(self, i, size):
         key = self.key(i, size)
@@ -460,9 +520,10 @@ class RealWorld(RealImage):
             if p[0] == 'junk':
                 data += self.junk(p[1], p[2])
             else:
-                _, i, size = p
-                rows.append((self.key(i, size), pack_id, len(data), size, size, 0))
-                data += real_bytes(i, size)
+                kind, i, size = p
+                stored = self.zdata(i, size) if kind == 'zobj' else real_bytes(i, size)
+                rows.append((self.key(i, size), pack_id, len(data), len(stored), size, 1 if kind == 'zobj' else 0))
+                data += stored
         p = os.path.join(self.folder, 'packs', str(pack_id))
         with io.open(p, 'wb') as f:
             f.write(data)
